@@ -53,3 +53,23 @@ def unset_env(operator: 'TT', solution: 'TT'):
     for i in range(operator.order - 1):
         __left(i, stack, operator, solution)
     return np.tensordot(stack[operator.order - 1], operator.cores[operator.order - 1], axes=(1, 0))
+
+
+def blocks_overwrite(a: 'TT', b: 'TT'):
+    core = np.zeros([1, a.row_dims[0], a.col_dims[0], 1])
+    core[0:a.ranks[0], :, :, 0:a.ranks[1]] = a.cores[0]
+    core[0:b.ranks[0], :, :, 0:b.ranks[1]] = b.cores[0]
+    return core
+
+
+def blocks_additive(a: 'TT', b: 'TT'):
+    core = np.zeros([1, a.row_dims[0], a.col_dims[0], 1], dtype=complex)
+    core[0:a.ranks[0], :, :, 0:a.ranks[1]] = a.cores[0]
+    core[0:b.ranks[0], :, :, 0:b.ranks[1]] += b.cores[0]
+    return core
+
+
+def complex_into_real(a: 'TT', b: 'TT'):
+    core = np.zeros([1, a.row_dims[0], a.col_dims[0], 1])
+    core[0:a.ranks[0], :, :, 0:a.ranks[1]] = a.cores[0]
+    return core
